@@ -45,7 +45,7 @@ NoBg == [k |-> "nobg"]
 Absent == [t |-> "absent"]
 NoAof == [k |-> "noaof"]
 InitS == [dbs |-> [d \in DBs |-> EmptyK], conns |-> <<>>, pass |-> NoPass, bseq |-> 0, scans |-> <<>>, disk |-> NoDump,
-          aof |-> NoAof, scripts |-> {}, bg |-> NoBg]
+          aof |-> NoAof, scripts |-> {}, bg |-> NoBg, progs |-> <<>>]
 
 SOut(r, S) == {[r |-> r, S |-> S, dv |-> {}]}
 SFail(S) == SOut(RErr, S)
@@ -369,6 +369,18 @@ CmdEVAL(S, c, a, tm, obs, bysha) ==
                   THEN {[o EXCEPT !.dv = @ \cup {"script_conv"}] : o \in RunProg(S1, c, obs.prog, 1, keys, args, tm, TRUE, obs.r)}
                   ELSE {})
 
+(* A script queued in a transaction runs at EXEC time: the program recorded when the request was queued (S.progs,
+   keyed by script source and by digest) stands in for the observation. *)
+ProgObs(S, a, ob) ==
+  IF Len(a) >= 2 /\ a[2] \in DOMAIN S.progs
+  THEN [t |-> "evalobs", r |-> ob, prog |-> S.progs[a[2]].prog, sha |-> S.progs[a[2]].sha]
+  ELSE ob
+RegProg(S, a, prog, sha) ==
+  LET name == IF Len(a) = 0 THEN "?" ELSE NameOf(a)
+      keys == IF name \in {"EVAL", "EVALSHA"} /\ Len(a) >= 2 THEN {a[2], sha}
+              ELSE IF name = "SCRIPT" /\ Len(a) = 3 THEN {a[3], sha} ELSE {}
+  IN [S EXCEPT !.progs = [k \in keys |-> [prog |-> prog, sha |-> sha]] @@ @]
+
 (* SCRIPT LOAD body | SCRIPT EXISTS sha... | SCRIPT FLUSH *)
 CmdSCRIPT(S, a, obs) ==
   IF Len(a) < 2 THEN SFail(S)
@@ -496,8 +508,8 @@ Exec1(S, c, a, tm, obs, inTxn) ==
                [] name = "PUBLISH" -> CmdPUBLISH(S, a)
                [] name \in ScanCommands -> CmdSCANx(S, c, name, a, obs)
                [] name = "SAVE" -> CmdSAVE(S, a, tm)
-               [] name = "EVAL" -> (IF inTxn THEN SOut(RAny, S) ELSE CmdEVAL(S, c, a, tm, obs, FALSE))
-               [] name = "EVALSHA" -> (IF inTxn THEN SOut(RAny, S) ELSE CmdEVAL(S, c, a, tm, obs, TRUE))
+               [] name = "EVAL" -> (IF inTxn THEN CmdEVAL(S, c, a, tm, ProgObs(S, a, obs), FALSE) ELSE CmdEVAL(S, c, a, tm, obs, FALSE))
+               [] name = "EVALSHA" -> (IF inTxn THEN CmdEVAL(S, c, a, tm, ProgObs(S, a, obs), TRUE) ELSE CmdEVAL(S, c, a, tm, obs, TRUE))
                [] name = "SCRIPT" -> CmdSCRIPT(S, a, obs)
                [] name = "BLPOP" -> CmdBPOP(S, c, a, tm, obs, TRUE, inTxn)
                [] name = "BRPOP" -> CmdBPOP(S, c, a, tm, obs, FALSE, inTxn)
